@@ -221,12 +221,13 @@ class CHECK(core.Check):
             if consulted and not case["chk"] and out[0].split()[1] != "0":
                 return "failed start/ready did not leave desire STOP"
             return None
-        if out[0] != "returned":
+        if out[0] not in ("returned", "fuel"):
             return "run did not return normally: %s" % out[0]
         slaves = set(i for i, f in enumerate(case["framers"]) if f["sched"] == "slave")
         n = len(case["framers"])
         last_write = {}
         status = {i: 0 for i in range(n)}
+        prev_write = None
         cur = None            # scheduler send in progress: [id, control, status before, check result]
         pending_check = {}    # framer -> last checkStart result not yet consumed by a send's end
         for l in out:
@@ -236,6 +237,12 @@ class CHECK(core.Check):
             kind = t[0]
             if kind == "w":
                 last_write[int(t[1])] = int(t[2])
+                prev_write = (int(t[1]), int(t[2]))
+            elif kind == "b":
+                # a bid of control c assigns c to the target's desire
+                if prev_write != (int(t[2]), int(t[3])):
+                    return "framer %s bid control %s on framer %s but %s was written to its desire" % (
+                        t[1], t[3], t[2], prev_write[1] if prev_write and prev_write[0] == int(t[2]) else "nothing")
             elif kind == "r":
                 ph, i, c = t[1], int(t[2]), int(t[3])
                 if i in slaves:
@@ -270,6 +277,8 @@ class CHECK(core.Check):
                 if why:
                     return why
                 status[sl] = st
+        if out[0] == "fuel":
+            return None       # cut by the pass budget: nothing more to say (the model must say `fuel` too)
         # final statuses: nothing changed a status outside a send / a fiat
         fin = [l for l in out if l.startswith("final")][0].split()[1:]
         for i in range(n):
@@ -319,8 +328,8 @@ class CHECK(core.Check):
             for j, fr in enumerate(f["frames"]):
                 for key in ("be", "en", "re", "ex", "pre"):
                     for k in range(len(fr.get(key, []))):
-                        if f is case["framers"][-1] and key == "pre":
-                            continue          # keep the supervisor's clockwork
+                        if f is case["framers"][-1]:
+                            continue          # keep the supervisor: without it the program does not end
                         c = copy.deepcopy(case)
                         del c["framers"][i]["frames"][j][key][k]
                         yield c
